@@ -28,8 +28,33 @@ type Primary struct {
 	defaultCodec      proto.CompressionCodec     // Default compression codec
 	heartbeat         *heartbeatManager          // Manages heartbeats and session monitoring
 	mu                sync.RWMutex               // Protects sessions map
+	walProvider       func() *wal.WAL            // Returns the engine's current WAL (nil: the WAL never changes)
 
 	proto.UnimplementedWALReplicationServiceServer
+}
+
+// SetWALProvider makes the primary read from whatever WAL the engine is
+// currently writing to. The storage engine replaces its WAL object with every
+// log rotation (memtable flush); a primary that keeps reading the object it
+// was created with sees no new entries from then on.
+func (p *Primary) SetWALProvider(provider func() *wal.WAL) {
+	p.mu.Lock()
+	defer p.mu.Unlock()
+	p.walProvider = provider
+}
+
+// currentWAL returns the WAL to read entries and sequence numbers from
+func (p *Primary) currentWAL() *wal.WAL {
+	p.mu.RLock()
+	provider := p.walProvider
+	p.mu.RUnlock()
+
+	if provider != nil {
+		if w := provider(); w != nil {
+			return w
+		}
+	}
+	return p.wal
 }
 
 // WALRetentionConfig defines WAL file retention policy
@@ -279,7 +304,7 @@ func (p *Primary) StreamWAL(
 			return ctx.Err()
 		case <-ticker.C:
 			// Check if we have new entries to send
-			currentSeq := p.wal.GetNextSequence() - 1
+			currentSeq := p.currentWAL().GetNextSequence() - 1
 			if currentSeq > session.LastAckSequence {
 				log.Info("Checking for new entries: currentSeq=%d > lastAck=%d",
 					currentSeq, session.LastAckSequence)
@@ -632,7 +657,7 @@ func (p *Primary) getWALEntriesFromSequence(fromSequence uint64) ([]*wal.Entry, 
 
 	// Get current sequence in WAL (next sequence - 1)
 	// We subtract 1 to get the current highest assigned sequence
-	currentSeq := p.wal.GetNextSequence() - 1
+	currentSeq := p.currentWAL().GetNextSequence() - 1
 
 	log.Info("GetWALEntriesFromSequence called with fromSequence=%d, currentSeq=%d",
 		fromSequence, currentSeq)
@@ -645,7 +670,7 @@ func (p *Primary) getWALEntriesFromSequence(fromSequence uint64) ([]*wal.Entry, 
 
 	// Use the WAL's built-in method to get entries starting from the specified sequence
 	// This preserves the original keys and values exactly as they were written
-	allEntries, err := p.wal.GetEntriesFrom(fromSequence)
+	allEntries, err := p.currentWAL().GetEntriesFrom(fromSequence)
 	if err != nil {
 		log.Error("Failed to get WAL entries: %v", err)
 		return nil, fmt.Errorf("failed to get WAL entries: %w", err)
@@ -823,7 +848,7 @@ func (p *Primary) maybeManageWALRetention() {
 		MinSequenceKeep: minAcknowledgedSeq,
 	}
 
-	filesDeleted, err := p.wal.ManageRetention(config)
+	filesDeleted, err := p.currentWAL().ManageRetention(config)
 	if err != nil {
 		log.Error("Failed to manage WAL retention: %v", err)
 		return
